@@ -211,7 +211,7 @@ Proof.
 Qed.
 
 (* ---- the first write initialises the writer: empty directory ---- *)
-Lemma related_files_empty f fixed : names f = [] -> related_files f fixed = [].
+Lemma related_files_empty f sfx fixed : names f = [] -> related_files f sfx fixed = [].
 Proof. intros H. unfold related_files, dir_names. rewrite H. reflexivity. Qed.
 
 Lemma existing_rot_empty off sp fixed f flt sel : names f = [] -> existing_rot off sp fixed f flt sel = Some [].
